@@ -7,7 +7,7 @@ BOUNDS = {
               'strtol, strtoll, strtoul, strtoull (with and without end pointer), atoi, atol, atoll, stoi, stol, stoll, stoul, stoull (with pos, null pos, defaults): SN 0..2 with base symbolic over {0, 2..36}, SN 3..4 with base {10,16}. '
               'Outside: overflow of the 32/64-bit types (needs 7..20 characters), longer texts.'),
     'thorough': ('quick grid plus: char, long long, unsigned long long; base symbolic up to SN 4 (8-bit) / SN 2 (all other types); 8-bit types SN 5..6 in bases {2,10,16,36}, 16-bit types SN 5..6 in bases {10,16}, base 8 for the 8/16-bit types; '
-                 '32-bit types SN 5 in bases {10,16} and 32-bit overflow with SN 7 in base 36; strtol family SN 3 with symbolic base, bases {8,36} for SN 3..4, base 10 for SN 5. '
+                 '32-bit types SN 5 in bases {10,16} and overflow of unsigned with SN 7 in base 36 (int: no verdict within 900 s); strtol family SN 3 with symbolic base, bases {8,36} for SN 3..4, base 10 for SN 5. '
                  'Outside: base-10 overflow of 32/64-bit types (11/20 characters), overflow of strtol/strtoul themselves (>= 13 characters; the defect there is recorded from to_integer<narrow>, the shared implementation).'),
 }
 ASSUMPTIONS = [
@@ -66,8 +66,7 @@ def queries(tier, prop='C10'):
             both(cfg, sv, bud)
             if b == 10 and n in (3, 4): out.append(q('q_from_chars_def', cfg, ub, sv, bud))
     if thorough:
-        for t in ('unsigned', 'int'):
-            both({'TY': t, 'SN': 7, 'BASE': 36, 'WOVF': 1}, 'kissat', 900)
+        both({'TY': 'unsigned', 'SN': 7, 'BASE': 36, 'WOVF': 1}, 'kissat', 900)   # (int: to_integer gave no verdict within 900 s)
     # ---- strtol family, ato*, sto* (TY is irrelevant for them): base symbolic over {0, 2..36} for short texts, enumerated for longer ones
     ATO = ('q_atoi', 'q_atol', 'q_atoll', 'q_stoi_def')
     for n in range(0, (3 if thorough else 2) + 1):
